@@ -44,7 +44,11 @@ type API struct {
 	FailKind string // "http400" | "success-false" | "success-false-no-errors" | "bad-json"
 	// MaxPerPage > 0: the server caps the page size (it answers with fewer items per page than asked and says so in result_info.per_page)
 	MaxPerPage int
-	callBase   int
+	// OmitEmptyValue: a record without parameters is listed without the "value" member (omitempty on the server side)
+	OmitEmptyValue bool
+	// Hook, if set, runs at the start of every request with its index within the current call (e.g. to cancel the caller's context)
+	Hook     func(idx int)
+	callBase int
 }
 
 func New(zones []*Zone) *API { return &API{Zones: zones, FailAt: -1} }
@@ -68,6 +72,12 @@ func (a *API) RoundTrip(req *http.Request) (*http.Response, error) {
 	}
 	idx := len(a.Log) - a.callBase
 	a.Log = append(a.Log, Request{req.Method, req.URL.Path, req.URL.RawQuery, string(body)})
+	if a.Hook != nil {
+		a.Hook(idx)
+	}
+	if err := req.Context().Err(); err != nil {
+		return nil, err
+	}
 	if idx == a.FailAt {
 		switch a.FailKind {
 		case "http400":
@@ -125,7 +135,11 @@ func (a *API) RoundTrip(req *http.Request) (*http.Response, error) {
 			}
 			for _, r := range zz.Records {
 				if q.Get("type") == "" || q.Get("type") == "HTTPS" {
-					all = append(all, rec{r.ID, r.Name, "HTTPS", 1, map[string]any{"priority": r.Priority, "target": r.Target, "value": r.Value}})
+					data := map[string]any{"priority": r.Priority, "target": r.Target, "value": r.Value}
+					if a.OmitEmptyValue && r.Value == "" {
+						delete(data, "value")
+					}
+					all = append(all, rec{r.ID, r.Name, "HTTPS", 1, data})
 				}
 			}
 		}
